@@ -154,7 +154,7 @@ func TestAdjacentPairs(t *testing.T) {
 		for i := 0; i < 12; i++ {
 			posC[i] = rapid.SampledFrom(posClasses).Draw(t, fmt.Sprintf("pos%d", i))
 			negC[i] = rapid.SampledFrom(negClasses).Draw(t, fmt.Sprintf("neg%d", i))
-			u[i] = rapid.Float64Range(0, 1).Draw(t, fmt.Sprintf("u%d", i))
+			u[i] = g.F(0, 1).Draw(t, fmt.Sprintf("u%d", i))
 		}
 		bg := rapid.SampledFrom([]float64{0.5, 0.05, 1e-6, 0.75}).Draw(t, "background")
 		lo := v3.Vec{X: c.nodes.X[0], Y: c.nodes.Y[0], Z: c.nodes.Z[0]}
@@ -234,7 +234,7 @@ func TestRandomFields(t *testing.T) {
 		bg := rapid.SampledFrom([]float64{0.5, 0.05, 1e-6}).Draw(t, "background")
 		f := newField(c, n, r.name == "octree", bg)
 		nx, ny, nz := len(c.nodes.X), len(c.nodes.Y), len(c.nodes.Z)
-		pneg := rapid.Float64Range(0.05, 0.95).Draw(t, "pneg")
+		pneg := g.F(0.05, 0.95).Draw(t, "pneg")
 		anyNeg := false
 		negs := 0
 		// interior nodes only: the outer layer stays positive so the surface is strictly inside
@@ -242,8 +242,8 @@ func TestRandomFields(t *testing.T) {
 			for j := 1; j < ny-1; j++ {
 				for k := 1; k < nz-1; k++ {
 					l := fmt.Sprintf("n%d.%d.%d", i, j, k)
-					u := rapid.Float64Range(0, 1).Draw(t, l+".u")
-					if rapid.Float64Range(0, 1).Draw(t, l+".s") < pneg {
+					u := g.F(0, 1).Draw(t, l+".u")
+					if g.F(0, 1).Draw(t, l+".s") < pneg {
 						v := -magnitude(rapid.SampledFrom(negClasses).Draw(t, l+".c"), u)
 						f.set(i, j, k, v)
 						anyNeg = anyNeg || v < -1e-9
@@ -291,7 +291,7 @@ func TestScenes(t *testing.T) {
 		// enlarge the box a little and optionally shift it by a sub-cell amount
 		h := sz.MaxComponent() / float64(cells)
 		margin := rapid.SampledFrom([]float64{0.02, 0.3, 1, 1.5}).Draw(t, "margin") * h
-		shift := v3.Vec{X: rapid.Float64Range(-0.5, 0.5).Draw(t, "shx") * h, Y: rapid.Float64Range(-0.5, 0.5).Draw(t, "shy") * h, Z: rapid.Float64Range(-0.5, 0.5).Draw(t, "shz") * h}
+		shift := v3.Vec{X: g.F(-0.5, 0.5).Draw(t, "shx") * h, Y: g.F(-0.5, 0.5).Draw(t, "shy") * h, Z: g.F(-0.5, 0.5).Draw(t, "shz") * h}
 		if rapid.Bool().Draw(t, "noshift") {
 			shift = v3.Vec{}
 		}
